@@ -1,9 +1,60 @@
 """C01 -- map-family results equal sequential evaluation for every input and configuration."""
+import random
+
 from checks import c02
+from lib import scen as S, runner
+
+
+def history_part(ctx):
+    """C01 also quantifies over keep_alive and over the pool's extra arguments: a few call histories with
+    settings changing between calls; every call's result must equal the sequential reference"""
+    rng = random.Random(ctx['seed'] + 101)
+    sms = ['fork', 'threading', 'forkserver', 'spawn']
+    scens = [S.gen_history(rng, k, ctx['tier'], sms) for k in range(12 if ctx['tier'] == 'quick' else 100)]
+    recs = runner.run_many(scens, 'c01_hist', jobs=10)
+    out, n = [], 0
+    for rec in recs:
+        if rec['status'] != 'done' or not rec['result']:
+            out.append((rec, f"scenario did not finish: {rec['status']}"))
+            continue
+        for c, o in zip(rec['scenario']['calls'], rec['result']['calls']):
+            if 'n' not in c:
+                continue
+            n += 1
+            msg = S.check_value(c, o)
+            if msg:
+                out.append((rec, f"call base={c['base']}: {msg}"))
+                break
+    return recs, out, n
 
 
 def run(ctx):
-    return c02.run_generic(ctx, 'C01', ('map', 'map_unordered', 'imap', 'imap_unordered'))
+    res = c02.run_generic(ctx, 'C01', ('map', 'map_unordered', 'imap', 'imap_unordered'))
+    recs, bad, n = history_part(ctx)
+    for rec, msg in bad[:2]:
+        again = runner.run_many([rec['scenario']] * 2, 'c01_hist_re', jobs=2)
+        still = [r for r in again if r['status'] != 'done' or any(
+            S.check_value(c, o) for c, o in zip(r['scenario']['calls'], (r['result'] or {'calls': []})['calls']) if 'n' in c)]
+        if still:
+            res['violations'].append(dict(found_input=True, what=msg, signature='C01:history',
+                                          replay=dict(kind='scenario', scenario=rec['scenario'], got=msg, history=True)))
+    res['coverage']['history_scenarios'] = len(recs)
+    res['coverage']['history_calls_checked'] = n
+    res['coverage']['evaluations'] += len(recs)
+    return res
 
 
-replay = c02.replay
+def replay(payload):
+    if payload.get('history'):
+        recs = runner.run_many([payload['scenario']], 'replay', jobs=1, keep=True)
+        r = recs[0]
+        print("status:", r['status'])
+        bad = r['status'] != 'done'
+        for c, o in zip(r['scenario']['calls'], (r['result'] or {'calls': []})['calls']):
+            if 'n' in c:
+                m = S.check_value(c, o)
+                if m:
+                    print("oracle:", m)
+                    bad = True
+        return 1 if bad else 0
+    return c02.replay(payload)
